@@ -38,8 +38,8 @@ let () =
                  | VRead -> "read"
                  | VMergeRead -> "mread"
                  | VWrite LRej -> "noprop-err"
-                 | VWrite LLocalErr -> "noprop-err"
-                 | VWrite LLocalOk -> "noprop-ok"
+                 | VWrite LLocalErr -> "local-err"
+                 | VWrite LLocalOk -> "local-ok"
                  | VWrite LNoReply -> "noreply"
                  | VWrite (LProp (_, a)) -> "prop " ^ String.concat "," (List.map hex_of_bytes a)) in
       Printf.printf "%s\t%s\n" id out
